@@ -123,3 +123,19 @@ Arguments lt {T}. Arguments le {T}. Arguments WF {T}. Arguments mem {T}. Argumen
 Arguments sep {T}. Arguments NF {T}. Arguments lb_lt {T}. Arguments lb_eq {T}. Arguments ub_lt {T}.
 Arguments ub_eq {T}. Arguments below {T}. Arguments rel_spec {T}. Arguments P_spec {T}.
 Arguments status_spec {T}. Arguments union_le {T}. Arguments finite {T}. Arguments qsorted {T}.
+
+(* ---- sets with rational end points (integer queries) *)
+Local Open Scope Z_scope.
+(* a rational in lowest terms with positive denominator (what mpq_t / the value kinds hold) *)
+Definition xq_ok (x : xq) : Prop :=
+  match x with XFin q => 0 < snd q /\ Z.gcd (fst q) (snd q) = 1 | _ => True end.
+Definition xq_finite (x : xq) : Prop := match x with XFin _ => True | _ => False end.
+(* well-formed interval with canonical end points; a point is a finite number *)
+Definition WFx (X : itv xq) : Prop :=
+  WF xq_cmp X /\ xq_ok (ia X) /\ xq_ok (ib X) /\ (ipt X = true -> xq_finite (ia X)).
+(* the integer z as a carrier value *)
+Definition zq (z : Z) : xq := XFin (z, 1).
+Definition int_mem (z : Z) (X : itv xq) : Prop := mem xq_cmp (zq z) X.
+Definition int_mem_set (z : Z) (s : list (itv xq)) : Prop := mem_set xq_cmp (zq z) s.
+(* the sum of the per-interval integer counts *)
+Definition sum_counts (s : list (itv xq)) : Z := fold_right (fun X acc => itv_count_int X + acc) 0 s.
